@@ -58,7 +58,7 @@ func TestC09SlowStore(t *testing.T) {
 	run := vk.New("C09", "slow-store")
 	defer run.Finish()
 	idx := 0
-	for _, delay := range []time.Duration{0, 5 * time.Millisecond, 50 * time.Millisecond} {
+	for _, delay := range []time.Duration{0, 5 * time.Millisecond, 50 * time.Millisecond, 10 * time.Minute} { // (virtual time: a ten-minute append costs nothing)
 		for _, timeout := range []time.Duration{0, 10 * time.Millisecond, time.Hour} {
 			for _, honour := range []bool{true, false} {
 				for _, async := range []bool{false, true} {
@@ -102,7 +102,7 @@ func TestC09SlowStore(t *testing.T) {
 								}
 							}
 							bus.Wait()
-							time.Sleep(10 * time.Second) // let abandoned work (if any) finish
+							time.Sleep(4*delay + 10*time.Second) // let abandoned work (if any) finish
 							synctest.Wait()
 							evs, _, _ := st.inner.Read(context.Background(), ebu.OffsetOldest, 0)
 							var order []int
